@@ -174,6 +174,70 @@ def case_aa(g):
             "target": ["assign"]}
 
 
+def case_aa_elem(g):
+    """array assignment whose rhs (or lhs index expression) reads single ELEMENTS of the lhs array:
+    inside the written section (first / middle / last position) or outside it; full-range lhs
+    (`a(:)`, `m(:,j)`, explicit declared bounds) and partial ranges; rank 1 and rank 2."""
+    r = g.rng
+    arr = r.choice(["a", "b", "c", "d", "v", "w", "u", "m", "q", "p2"])
+    dims = R.ARRAYS[arr]
+    d = r.randrange(len(dims))
+    lo, hi = dims[d]
+    form = r.choice(["colon", "colon", "declared", "partial", "partial"])
+    if form == "partial":
+        cnt = r.choice([2, 3, 4])
+        s = r.randint(lo, hi - cnt + 1)
+        e = s + cnt - 1
+        rtxt = f"{g.sym(s)}:{g.sym(e)}"
+    else:
+        s, e = lo, hi
+        rtxt = ":" if form == "colon" else f"{lo}:{hi}"
+    cnt = e - s + 1
+    where = r.choice(["first", "middle", "last", "outside", "middle"])
+    pos = {"first": s, "middle": (s + e) // 2, "last": e}.get(where)
+    if pos is None:
+        outside = [i for i in range(lo, hi + 1) if not s <= i <= e]
+        pos = r.choice(outside) if outside else e
+    if len(dims) == 1:
+        lhs, elem = f"{arr}({rtxt})", f"{arr}({g.sym(pos)})"
+        same = lhs
+    else:
+        olo, ohi = dims[1 - d]
+        fixed = r.randint(olo, ohi)
+        ftxt = g.sym(fixed)
+        other = fixed if r.random() < 0.7 else r.randint(olo, ohi)     # element in the same or another row/column
+        lhs = f"{arr}({rtxt},{ftxt})" if d == 0 else f"{arr}({ftxt},{rtxt})"
+        elem = f"{arr}({g.sym(pos)},{g.sym(other)})" if d == 0 else f"{arr}({g.sym(other)},{g.sym(pos)})"
+        same = lhs
+    shape = r.choice(["sub", "mul", "minmax", "other", "lhsindex"])
+    pre = []
+    if shape == "sub":
+        rhs = f"{same} - {elem}"
+    elif shape == "mul":
+        rhs = f"{same} * {elem} + {r.choice(R.SCALARS)}"
+    elif shape == "minmax":
+        rhs = f"max({same}, {elem}) + min({elem}, 2.0)"
+    elif shape == "other":
+        o = g.section(r.choice([x for x in ["a", "b", "c", "d"] if x != arr]), cnt, 1)
+        rhs = f"{o} + {elem} * 2.0" if o else f"{same} + {elem}"
+    else:
+        # the lhs index expression itself reads an element of the lhs array
+        if len(dims) == 2:
+            olo, ohi = dims[1 - d]
+            val = r.randint(olo, ohi)
+            cell = f"{arr}({dims[0][0] + 1},{dims[1][0] + 1})"
+            pre = [f"{cell} = {val}.0"]
+            lhs = f"{arr}({rtxt},int({cell}))" if d == 0 else f"{arr}(int({cell}),{rtxt})"
+            rhs = r.choice([f"{r.choice(R.SCALARS)} + 1.0", "3.0"])
+        else:
+            cell = f"{arr}({lo + 1})"
+            pre = [f"{cell} = {s}.0"]
+            lhs = f"{arr}(int({cell}):{e})"
+            rhs = r.choice([f"{r.choice(R.SCALARS)} + 1.0", "3.0"])
+    return {"kind": "aa", "flavour": "elem-" + form + "-" + (where if shape != "lhsindex" else "lhsindex"),
+            "stmts": pre + [f"{lhs} = {rhs}"], "trans": "ArrayAssignment2LoopsTrans", "target": ["assign"]}
+
+
 def scalar_target(g):
     r = g.rng
     return r.choice(["x", "y", "z", "r(2)", r.choice(["r(k)", "r(n-1)", "r(3)"]), "m(2,3)", r.choice(["q(1,3)", "q(k,n)"])])
@@ -544,15 +608,18 @@ def run(chk):
     findings = common.known_findings("C06")
     rng = chk.rng
     nb, bs = {"quick": (8, 24), "thorough": (100, 24)}[chk.tier]
-    gens = [case_aa] * 6 + [case_intr] * 4 + [case_red] * 6 + [case_dot] * 2 + [case_matmul] * 2 + [case_misc]
+    gens = [case_aa] * 5 + [case_aa_elem] * 3 + [case_intr] * 4 + [case_red] * 6 + [case_dot] * 2 + [case_matmul] * 2 + [case_misc]
     cparams = R.gen_params(__import__("random").Random(7))
     cparams["n"], cparams["k"] = 4, 2
     batches = [([dict(c) for c in CORPUS], cparams)]
     cdir = os.path.join(common.ROOT, "corpus", "C06")
     if os.path.isdir(cdir):
+        groups = {}
         for f in sorted(os.listdir(cdir)):
             d = json.load(open(os.path.join(cdir, f)))
-            batches.append(([d["case"]], d["params"]))
+            groups.setdefault(json.dumps(d["params"], sort_keys=True), []).append(d["case"])
+        for key, cs in groups.items():
+            batches.append((cs, json.loads(key)))
     for _ in range(nb):
         params = R.gen_params(rng)
         g = Gen(rng, params)
